@@ -63,6 +63,24 @@ def build_word(row, raw, tweak):
     return w
 
 
+def field_corner(row, w, entropy):
+    """in 30 % of the draws one non-register field of the encoding is put at a corner (0, 1, max, max-1, top bit): imm5 = 0 (shift by 32), rotation 0,
+    saturate-to 1/32, width-minus-1 = 0/31, lsb = 31, offset 0/max ... - a uniform draw reaches each with probability 2^-width only"""
+    rng = random.Random(entropy ^ 0xC0FFEE)
+    if rng.random() >= 0.3:
+        return w
+    cands = [k for k in sorted(row.fields) if k not in REGFIELDS and k not in 'cr' and len(row.fields[k]) >= 2]
+    if not cands:
+        return w
+    k = rng.choice(cands)
+    poss = row.fields[k]
+    mx = (1 << len(poss)) - 1
+    v = rng.choice((0, 0, mx, 1, mx - 1, 1 << (len(poss) - 1)))
+    for j, p_ in enumerate(reversed(poss)):
+        w = (w & ~(1 << p_)) | (((v >> j) & 1) << p_)
+    return w
+
+
 def sig(diffs):
     cats = set()
     for k, v in diffs.items():
@@ -95,7 +113,7 @@ class Plan:
     """what one E1 property generates: row names, configs, and options passed to gen.step_case"""
 
     def __init__(self, prop, rows, cfgs=('v6', 'v7'), nontrivial=None, classify=None, case_kw=None, tweak_case=None,
-                 steps=1, hooked=(False,), accept=None):
+                 steps=1, hooked=(False,), accept=None, tweak_word=None):
         self.prop = prop
         self.rows = [r for r in rows if r in ROWS]
         self.missing = [r for r in rows if r not in ROWS]
@@ -107,6 +125,7 @@ class Plan:
         self.steps = steps
         self.hooked = hooked
         self.accept = accept
+        self.tweak_word = tweak_word      # (row, word, entropy) -> word: shapes field values after build_word (pure function of its arguments)
 
 
 def default_nontrivial(res):
@@ -199,6 +218,9 @@ def shard(plan_ref, seed, examples):
         name = plan.rows[ri]
         tn, row = ROWS[name]
         w = build_word(row, raw, tweak)
+        w = field_corner(row, w, entropy)
+        if plan.tweak_word:
+            w = plan.tweak_word(row, w, entropy)
         rng = random.Random(entropy)
         cfgname = plan.cfgs[ci]
         thumb = tn != 'arm'
